@@ -5,7 +5,7 @@ import shutil
 
 from vlib import Check, Infra, run_tlc, build_harness, run_vh, scratch_dir, SPEC, parallel, seed, log
 
-KIND_PROP = {"new": "C09", "readhdr": "C09", "writehdr": "C09", "ser": "C09", "open": "C10", "read": "C10", "write": "C10"}
+KIND_PROP = {"new": "C09", "hparse": "C09", "readhdr": "C09", "writehdr": "C09", "ser": "C09", "open": "C10", "read": "C10", "write": "C10"}
 
 
 def cfg_with(name, repl):
